@@ -210,9 +210,22 @@ for isa, arch in (("x86", "zen1"), ("aarch64", "n1")):
             lines[1] = "Latency: n/a cy"
         elif kind == "lines-interchanged":
             lines[1], lines[2] = lines[2], lines[1]
+        elif kind == "unknown-operand-code":
+            lines[0] = f"{name}-{ops[0]}_qq7"
+        elif kind == "latency-nan":
+            lines[1] = "Latency: nan cy"
+        elif kind == "throughput-inf":
+            lines[2] = "Throughput: inf cy"
+        elif kind == "no-operand-part":
+            lines[0] = name
         return lines
 
-    kinds = ["garbage-separator", "throughput-line-missing", "not-a-number", "lines-interchanged"]
+    # further kinds: an operand code outside the naming convention (the block cannot be decoded: malformed); a measurement that is a
+    # float but no number (nan / inf: either the block counts as malformed, or the form is emitted with that measurement MISSING -
+    # "recorded as missing rather than invented"); a name without operand part (documented as optional: either an entry without
+    # operands or a malformed block).  Whatever is chosen, the import must not crash and earlier entries must be emitted.
+    kinds = ["garbage-separator", "throughput-line-missing", "not-a-number", "lines-interchanged", "unknown-operand-code", "latency-nan", "throughput-inf", "no-operand-part"]
+    EITHER = {"latency-nan": "lt", "throughput-inf": "tp", "no-operand-part": "ops"}
     plan = [(None, None)] + [(b, "garbage-separator") for b in range(len(blocks) if A.tier == "thorough" else 5)] + [(b, k) for k in kinds[1:] for b in ((0, 2, 11) if A.tier != "thorough" else range(len(blocks)))]
     for bad, kind in plan:
         text = []
@@ -224,9 +237,16 @@ for isa, arch in (("x86", "zen1"), ("aarch64", "n1")):
             R.case((isa, "asmbench", bad, kind), sample=dict(isa=isa, bench="asmbench", bad_block=bad, kind=kind))
             R.fail("C20/import/asmbench/crash", f"{isa}:asmbench-malformed:{kind}", f"asmbench file whose block {bad} is malformed ({kind}): import raised {e!r} instead of stopping at that block", dict(isa=isa, bad_block=bad, kind=kind))
             continue
+        bad_key = blocks[bad][0] if bad is not None else None
         for j, (name, ops, tpv, ltv) in enumerate(blocks):
-            R.case((isa, "asmbench", bad, j), sample=dict(isa=isa, bench="asmbench", bad_block=bad, form=name))
-            if bad is not None and j >= bad:
+            R.case((isa, "asmbench", bad, j, kind), sample=dict(isa=isa, bench="asmbench", bad_block=bad, form=name))
+            if bad is not None and kind in EITHER and bad_key in got:
+                # the block was taken as well-formed: then every block is imported, this one with the questionable part missing
+                want_tp, want_lt, want_ops = ref_tp(fmt(tpv)), ref_lt(fmt(ltv)), ops
+                if j == bad:
+                    want_tp, want_lt, want_ops = (None if EITHER[kind] == "tp" else want_tp), (None if EITHER[kind] == "lt" else want_lt), ([] if EITHER[kind] == "ops" else ops)
+                check_entry("asmbench", got.get(name), name, want_ops, isa, want_tp, want_lt, dict(isa=isa, bench="asmbench", ops=want_ops, bad_block=bad, kind=kind))
+            elif bad is not None and j >= bad:
                 if name in got:
                     R.fail("C20/import/asmbench/not-stopped", f"{isa}:asmbench", f"block {j} imported although block {bad} is malformed")
             else:
